@@ -303,6 +303,39 @@ class C12(PipelineCheck):
                     if bool(fn.is_final) not in has:
                         add('modifier', 'final-method', 'method %s.%s: final in program=%s, '
                             'header(s) %r' % (cname, fn.name, fn.is_final, heads[:2]))
+        # modifiers of class fields: Kotlin `[open ][override ]val|var`, Scala
+        # `[final ][override ]val|var`, Java/Groovy `public [final ]T name`.  A name may be
+        # declared in several classes (overriding): the multisets must agree.
+        want_f = {}
+        for cname, d in ir_classes.items():
+            for fd in d.fields:
+                if lang == 'kotlin':
+                    m_ = ('open ' if fd.can_override else '') + (
+                        'override ' if fd.override else '') + ('val' if fd.is_final else 'var')
+                elif lang == 'scala':
+                    m_ = ('final ' if not fd.can_override else '') + (
+                        'override ' if fd.override else '') + ('val' if fd.is_final else 'var')
+                else:
+                    m_ = 'final' if fd.is_final else ''
+                want_f.setdefault(fd.name, []).append(m_)
+        for fname, want in list(want_f.items())[:400]:
+            nm = re.escape(fname)
+            if lang in ('kotlin', 'scala'):
+                rx = re.compile(r'((?:\b(?:open|final|override)\s+)*)\b(val|var)\s+`?%s`?\s*:' % nm)
+                got = [' '.join((m_.group(1) + m_.group(2)).split()) for m_ in rx.finditer(text)]
+                dbg = ''
+            else:
+                rx = re.compile(r'^[ \t]*public[ \t]+(final[ \t]+)?[^()=;\n]*?\b%s\b[ \t]*;?[ \t]*$'
+                                % nm, re.M)
+                ms = list(rx.finditer(text))
+                got = ['final' if m_.group(1) else '' for m_ in ms]
+                dbg = [m_.group(0).strip()[:60] for m_ in ms]
+            if len(got) != len(want):
+                continue          # the scanner did not isolate the declarations: not judged
+            obl['field-modifiers'] = obl.get('field-modifiers', 0) + 1
+            if sorted(got) != sorted(want):
+                add('modifier', 'field', 'field %s: modifiers in the program %r, in the text %r %s' % (
+                    fname, sorted(want), sorted(got), dbg if lang in ('java', 'groovy') else ''))
         # names of functions, fields, parameters, variables
         obl['name-inventory'] += 1
         nlit = 0
